@@ -426,6 +426,39 @@ theorem refreshed_usk_roundtrip (L : Leaves c) (w : World) (h : Reachable w) (hk
   · simp only [hv, Bool.not_false, if_true]
     intro hok; simp at hok
 
+/-! ## encapsulations -/
+
+def XEncSmall (x : XEnc) : Prop := x.ntraps < 2 ^ 64 ∧ x.targets.length < 2 ^ 64
+
+/-- an encapsulation with at least one trap is a well-formed wire object -/
+theorem xenc_wf (L : Leaves c) (x : XEnc) (hk : x.ntraps ≠ 0) (hs : XEncSmall x) : WfEnc c (x.toWire L) := by
+  refine ⟨L.tag_len _, ?_, by simpa [XEnc.toWire, tracerToks] using hs.1, ?_, by simpa [XEnc.toWire] using hs.2, ?_⟩
+  · simp only [XEnc.toWire, tracerToks, ne_eq, List.map_eq_nil_iff, List.range_eq_nil]; exact hk
+  · intro p hp
+    simp only [XEnc.toWire, List.mem_map] at hp
+    obtain ⟨t, _, rfl⟩ := hp
+    exact ⟨L.trap_len _ _, L.trap_ok _ _⟩
+  · intro p hp
+    simp only [XEnc.toWire, List.mem_map] at hp
+    obtain ⟨t, _, rfl⟩ := hp
+    refine ⟨L.mask_len _ _, ?_⟩
+    cases hh : x.hybrid <;> simp [XEnc.toWire, hh, L.ct_len]
+
+/-- C13 for encapsulations over every history: whatever `encaps` returns under the public key of a
+reachable world (with at least one tracer) round-trips -/
+theorem encaps_xenc_roundtrip (L : Leaves c) (w : World) (hk : w.msk.ntracers ≠ 0)
+    (targets : List Right) (n : Rng) (s : Nat) (x : XEnc)
+    (he : (encaps w.msk.mpk targets n).1 = .ok (s, x)) (hs : XEncSmall x) (rest : Bytes) :
+    xenc c (encXenc (x.toWire L) ++ rest) = some (x.toWire L, rest) := by
+  unfold encaps at he
+  cases hsel : w.msk.mpk.selectSubkeys targets with
+  | error e => simp [hsel] at he
+  | ok p =>
+    obtain ⟨hyb, ks⟩ := p
+    simp only [hsel, Except.ok.injEq, Prod.mk.injEq] at he
+    obtain ⟨_, rfl⟩ := he
+    exact xenc_roundtrip c _ (xenc_wf L _ (by simpa [Msk.mpk] using hk) hs) rest
+
 /-! ## the wire layout determines the key -/
 
 theorem strBytes_inj {a b : String} (h : strBytes a = strBytes b) : a = b := by
